@@ -69,7 +69,7 @@ def lock_ordered_atomics(ctx, tab):
             if weak:
                 ctx.note("%s::%s is read weaker than acquire at %s: its stores are checked against %s" % (
                     cls, fld, weak[0][0].loc(weak[0][1]["st"]), ent["guard"]))
-                check_guarded_fields(ctx, rid, cls, only_fields=[fld], skip_atomic=False)
+                check_guarded_fields(ctx, rid, cls, only_fields=[fld], skip_atomic=False, strict_atomic_stores=True)
 
 
 def mutable_state(ctx):
